@@ -77,13 +77,15 @@ CHECKS = {
         assumptions=["at most 6 messages are in flight per socket (below the PUB high-water mark of 100), so ZMQ itself never drops"],
     ),
     "C15": dict(
-        pkg="./packets", hdir="packets", test="TestVerif_C15(RT|RAW)?", ids=["C15", "C15RT", "C15RAW"], custom="c15_fuzz",
+        pkg="./packets", hdir="packets", test="TestVerif_C15(RT|RAW|SLOT)?", ids=["C15", "C15RT", "C15RAW", "C15SLOT"], custom="c15_fuzz",
         quick=dict(shards=16, checks=50000, timeout=300),
         thorough=dict(shards=16, checks=150000, timeout=5400, fuzz_seconds=100),
         technique="property-based testing (rapid, structure-aware packet grammar) + encode/decode round trip + coverage-guided native go fuzzing (thorough tier)",
         rule="(i) rapid-generated byte strings = valid 16-byte header + 0-5 TLVs from a grammar (every TLV type; hostile sizes 0/too big/255; "
              "format strings incl. empty, endian-only, multi-type, unknown letters; shapes with zero/negative/huge dims; timestamp units with "
              "0/63/64/65 bits and zero numerator) + payload, with lying header/payload lengths, bad magic, truncation or trailing bytes; "
+             "(slots) 1-7 constructed packets written into slots of 8..8192 bytes (padding to the slot boundary, none when a packet ends exactly on one - "
+             "a third of the packets are sized to do so) and read back with ReadPacketPlusPad; "
              "(ii) rapid-generated packets built with NewPacket/SetTimestamp/NewData (int16/32/64, 1-4 positive dims, frames 1..beyond the "
              "maximum packet length) encoded and decoded; (iii, thorough) native fuzzing of the same decode oracle from empty, valid and hostile "
              "corpora. non-trivial = decode succeeded with >= 2 TLVs and a non-empty typed payload / round trip with >= 2 frames; "
@@ -97,11 +99,14 @@ CHECKS = {
         assumptions=["little-endian host (the decoder reinterprets the payload in place)"],
     ),
     "C05": dict(
-        pkg=".", hdir="root", test="TestVerif_C05",
-        quick=dict(shards=16, checks=12000, timeout=400),
-        thorough=dict(shards=16, checks=240000, timeout=5400),
+        pkg=".", hdir="root", test="TestVerif_C05E?", ids=["C05", "C05E"],
+        quick=dict(shards=16, checks=1, per_test={"TestVerif_C05": 12000, "TestVerif_C05E": 1500}, timeout=400),
+        thorough=dict(shards=16, checks=1, per_test={"TestVerif_C05": 240000, "TestVerif_C05E": 30000}, timeout=5400),
         technique="stateful property-based testing (rapid) with independent file decoders (written from doc/LJH.md, the LJH3 layout and OFF 0.3.0) as round-trip oracle",
-        rule="rapid-generated channel/geometry parameters (indices and geometry 0..65535, names without whitespace, 8 time bases, sub-frame "
+        rule="(E) the headers a START request produces: a real AnySource with generated sample rate (12 values, most with a period that is not a whole "
+             "number of ns), geometry, channel numbers/names, sub-frame parameters, decimation and projectors gets WriteControl START (any type "
+             "subset), 1-4 records per channel, STOP; every file is decoded and compared with the source's true parameters. "
+             "(main) rapid-generated channel/geometry parameters (indices and geometry 0..65535, names without whitespace, 8 time bases, sub-frame "
              "divisions/offsets, 1-6 bases with arbitrary finite float64 projector/basis entries incl. +-MaxFloat64 and denormals), every "
              "non-empty subset of {LJH2.2, LJH3, OFF}, and a history of 1-12 publish(1-3 records)/flush/pause/unpause operations followed "
              "by stop; record frames and times incl. 0, negative, +-2^62 and MaxInt64, variable lengths for LJH3-only; files are decoded "
@@ -197,11 +202,14 @@ CHECKS = {
         assumptions=["edge-multi settings respect the validity rule (zero-threshold needs npre >= 4 and nsamp-npre >= 4; nmonotone <= nsamp-npre)"],
     ),
     "C09": dict(
-        pkg=".", hdir="root", test="TestVerif_C09", wal=True,
-        quick=dict(shards=16, checks=12000, timeout=600),
-        thorough=dict(shards=16, checks=180000, timeout=5400),
+        pkg=".", hdir="root", test="TestVerif_C09R?", ids=["C09", "C09R"], wal=True,
+        quick=dict(shards=16, checks=1, per_test={"TestVerif_C09": 12000, "TestVerif_C09R": 60}, timeout=600),
+        thorough=dict(shards=16, checks=1, per_test={"TestVerif_C09": 180000, "TestVerif_C09R": 2500}, timeout=5400),
         technique="stateful property-based testing (rapid) against a set-of-pairs reference model + per-cycle multiset oracle for secondaries",
-        rule="rapid-generated histories on a 2/4/6-channel LanceroSource value: 1-10 edits (add/delete with 1-4 receivers incl. out-of-range, "
+        rule="(R) the report at its observation point: histories of 2-12 add/delete/stop-coupling/error-feedback-coupling requests (indices incl. "
+             "out-of-range, mixed valid/invalid lists) sent through the real RPC layer (SourceControl) to a running scripted, Lancero (in-memory card) or "
+             "triangle source; after each request the last GROUPTRIGGER state sent to clients is compared with the connections in use. "
+             "(main) rapid-generated histories on a 2/4/6-channel LanceroSource value: 1-10 edits (add/delete with 1-4 receivers incl. out-of-range, "
              "negative, repeated and self indices; StopTriggerCoupling; SetCoupling none/FB->err/err->FB) interleaved with data blocks "
              "(partitions as in C01) carrying boundary-biased pulses; channels with triggers off, edge, level or auto, configured by "
              "ConfigureTriggers, restored from a saved configuration, or only partly configured. non-trivial = >= 1 cycle delivering a "
